@@ -277,6 +277,60 @@ def _replay_chunk(cases):
     return [replay_case(c) for c in cases]
 
 
+def dtype_family(seed, count):
+    """The identities with the data given as NARROW INTEGERS (int8 / int16 / int32 at magnitudes whose squares leave the
+    dtype): the adapter is fitted on the integer-typed data, the defining cost differences are taken from the cost fitted
+    on the float copy of the same numbers (seeded change C06-e: GaussianVarCost squaring in the input's own dtype)."""
+    import warnings
+
+    warnings.filterwarnings("ignore")
+    from skchange.anomaly_scores import L2Saving, LocalAnomalyScore, Saving
+    from skchange.change_scores import CUSUM, ChangeScore
+    from skchange.costs import GaussianCovCost, GaussianVarCost, L2Cost
+
+    rng = np.random.default_rng(seed)
+    fails, n_eval = [], 0
+    for i in range(count):
+        n, p = int(rng.integers(8, 15)), int(rng.integers(1, 4))
+        dt, mag = [(np.int8, 15), (np.int16, 1500), (np.int32, 150000)][i % 3]
+        Xi = rng.integers(-mag, mag + 1, size=(n, p))
+        Xf = Xi.astype(float)
+        for container in ("array", "frame"):
+            Xn = Xi.astype(dt) if container == "array" else __import__("pandas").DataFrame(Xi.astype(dt))
+            for cname, mk, fixed, ms in (("L2Cost", L2Cost, 0.0, 1), ("GaussianVarCost", GaussianVarCost, (0.0, float(mag) ** 2), 2),
+                                         ("GaussianCovCost", GaussianCovCost, (0.0, float(mag) ** 2), p + 1)):
+                s, e = 0, n
+                k = int(rng.integers(s + ms, e - ms + 1))
+                a = int(rng.integers(s + 1, e - ms - 1))
+                b = int(rng.integers(a + ms, e))
+                if (a - s) + (e - b) < ms:
+                    continue
+                try:
+                    C = mk().fit(Xf)
+                    c = lambda u, v: C.evaluate(np.array([[u, v]]))[0]
+                    want_chg = c(s, e) - c(s, k) - c(k, e)
+                    pooled = mk().fit(np.vstack([Xf[s:a], Xf[b:e]])).evaluate(np.array([[0, (a - s) + (e - b)]]))[0]
+                    want_loc = c(s, e) - c(a, b) - pooled
+                    want_sav = mk(param=fixed).fit(Xf).evaluate(np.array([[a, b]]))[0] - c(a, b)
+                    got = {"ChangeScore": (ChangeScore(mk()).fit(Xn).evaluate(np.array([[s, k, e]]))[0], want_chg),
+                           "LocalAnomalyScore": (LocalAnomalyScore(mk()).fit(Xn).evaluate(np.array([[s, a, b, e]]))[0], want_loc),
+                           "Saving": (Saving(mk(param=fixed)).fit(Xn).evaluate(np.array([[a, b]]))[0], want_sav)}
+                    if cname == "L2Cost":
+                        got["CUSUM^2"] = (CUSUM().fit(Xn).evaluate(np.array([[s, k, e]]))[0] ** 2, want_chg)
+                        got["L2Saving"] = (L2Saving().fit(Xn).evaluate(np.array([[a, b]]))[0], want_sav)
+                except RuntimeError:
+                    continue   # documented: singular sample covariance
+                for scorer, (g, w) in got.items():
+                    n_eval += 1
+                    scale = max(1.0, float(np.max(np.abs(w))), float(mag) ** 2)
+                    if np.shape(g) != np.shape(w) or not np.allclose(g, w, rtol=1e-8, atol=1e-9 * scale):
+                        fails.append(("score_differs_from_cost_difference",
+                                      {"scorer": f"{scorer}({cname}) on {np.dtype(dt).name} {container}", "n": n, "p": p, "cuts": [s, k, a, b, e],
+                                       "got": np.asarray(g, dtype=float).tolist(), "cost_difference": np.asarray(w, dtype=float).tolist(),
+                                       "X": Xi.tolist()}))
+    return fails, n_eval
+
+
 def run(tier: str) -> int:
     chk = Check(PROP, tier)
     chk.rule = ("stage A/B: every integer matrix with entries -1..2 (or -1..1) of the listed shapes x ALL admissible 3- and "
@@ -307,6 +361,11 @@ def run(tier: str) -> int:
                     for clause, obs in fails[:3]:
                         chk.violation({"stage": "B", "case": {"n": case["n"], "p": case["p"], "X": case["X"]}, "observed": obs},
                                       clause, {"scorer": obs.get("scorer"), "clause": clause, "input_sha": key})
+        dfails, dn = dtype_family(chk.seed, 30 if tier == "quick" else 300)
+        chk.evaluations += dn
+        chk.extra["narrow_integer_identities_compared"] = dn
+        for clause, obs in dfails[:5]:
+            chk.violation({"stage": "dtype", "observed": obs}, clause, {"scorer": obs["scorer"], "clause": clause})
         count = 30 if tier == "quick" else 500
         with ProcessPoolExecutor(max_workers=stages.NCPU) as ex:
             traces = [t for part in ex.map(record, [(chk.seed + 50 + k, count) for k in range(16)]) for t in part]
